@@ -27,7 +27,13 @@ def gen_cases(seed, n):
                 ops.append({'redo': 1})
             else:
                 ops.append({'clear': 1})
-        cases.append({'id': f"r{k}", 'n': nmsg, 'max': mx, 'interval_s': 1, 'ops': ops})
+        keep = True
+        if k % 4 == 3:
+            # the process ends early (every act answered) and, with keep_processes off, leaves the cache:
+            # its messages still have to be retried / flagged
+            keep = False
+            ops = [{'action': i} for i in range(nmsg)] + ops
+        cases.append({'id': f"r{k}", 'n': nmsg, 'max': mx, 'interval_s': 1, 'keep': keep, 'ops': ops})
     return cases
 
 
@@ -49,6 +55,7 @@ def model_input(case, impl_lines):
     for i in range(nmsg):
         toks += ['E', str(i)]
     nops = nmsg
+    known = nmsg
     for op, il in zip(case['ops'], impl_lines[1:]):
         now = il['now']
         if 'tick' in op:
@@ -62,6 +69,11 @@ def model_input(case, impl_lines):
             toks += ['R', str(now)]
         else:
             toks += ['C']
+        # messages first seen at this operation were emitted by it (the terminal message of the process)
+        fresh = sorted(int(x.split(':')[0]) for x in il['deliveries'].split(';') if x and int(x.split(':')[0]) >= known)
+        for i in fresh:
+            toks += ['+E', str(100 + i)]
+            known += 1
         nops += 1
     return f"{case['id']} {case['interval_s'] * 1000} {case['max']} {nops} " + " ".join(toks), nmsg
 
